@@ -74,33 +74,25 @@ Next ==
   \/ \E i, j \in Idx, fail \in 0..(2 + MaxNames) : DoClone(i, j, fail)
 Spec == Init /\ [][Next]_vars
 
-(* random walks for the replay on the real code: ONE successor per step *)
+(* random walks for the replay on the real code: ONE successor per step; the call kind is drawn first, then its arguments *)
 NewFail == << 0, 0, 0, 0, 0, 0, 0, 1 >>
 AddFail == << 0, 0, 0, 0, 0, 0, 0, 0, 0, 0, 1, 2 >>
-CallsOf(o) ==
-  CASE o = "hn.new" -> {[op |-> o, i |-> i, j |-> 0, n |-> k, f |-> NewFail[w], w |-> w] : i \in Idx, k \in {"h", "e"}, w \in 1..Len(NewFail)}
-    [] o = "hn.add" -> {[op |-> o, i |-> i, j |-> 0, n |-> n, f |-> AddFail[w], w |-> w] : i \in Idx, n \in Names, w \in 1..Len(AddFail)}
-    [] o \in {"hn.find", "hn.check"} -> {[op |-> o, i |-> i, j |-> 0, n |-> n, f |-> 0, w |-> 0] : i \in Idx, n \in Names}
-    [] o \in {"hn.any", "hn.del"} -> {[op |-> o, i |-> i, j |-> 0, n |-> "", f |-> 0, w |-> 0] : i \in Idx}
-    [] o = "hn.clone" -> {[op |-> o, i |-> i, j |-> j, n |-> "", f |-> IF w > 3 + MaxNames THEN 0 ELSE w - 1, w |-> w] : i \in Idx, j \in Idx, w \in 1..(2 * (3 + MaxNames))}
-Gd(c) == CASE c.op = "hn.new" -> ~Live(c.i)
-           [] c.op = "hn.add" -> Live(c.i) /\ Len(HnAdd(objs[c.i], c.n, c.f).o.names) <= MaxNames
-           [] c.op = "hn.clone" -> Live(c.i) /\ ~Live(c.j)
-           [] OTHER -> Live(c.i)
-Do(c) ==
-  CASE c.op = "hn.new" -> DoNew(c.i, c.n, c.f)
-    [] c.op = "hn.add" -> DoAdd(c.i, c.n, c.f)
-    [] c.op = "hn.find" -> DoFind(c.i, c.n)
-    [] c.op = "hn.check" -> DoCheck(c.i, c.n)
-    [] c.op = "hn.any" -> DoAny(c.i)
-    [] c.op = "hn.del" -> DoDel(c.i)
-    [] c.op = "hn.clone" -> DoClone(c.i, c.j, c.f)
 OpBag == << "hn.new", "hn.new", "hn.add", "hn.add", "hn.add", "hn.add", "hn.add", "hn.add", "hn.find", "hn.find", "hn.check", "hn.check",
             "hn.any", "hn.clone", "hn.clone", "hn.del" >>
-EnabledCalls(o) == {c \in CallsOf(o) : Gd(c)}
+Pick(seq) == seq[RandomElement(1..Len(seq))]
 SimNext ==
-  \E x \in {RandomElement({y \in 1..Len(OpBag) : EnabledCalls(OpBag[y]) # {}})} :
-    \E c \in {RandomElement(EnabledCalls(OpBag[x]))} : Do(c)
+  LET live == {i \in Idx : Live(i)}  dead == Idx \ live
+      ok(kd) == CASE kd = "hn.new" -> dead # {} [] kd = "hn.clone" -> live # {} /\ dead # {} [] OTHER -> live # {} IN
+  \E kd \in {Pick(SelectSeq(OpBag, ok))} :
+    CASE kd = "hn.new" -> \E i \in {RandomElement(dead)}, k \in {Pick(<< "h", "e" >>)}, f \in {Pick(NewFail)} : DoNew(i, k, f)
+      [] kd = "hn.add" -> \E i \in {RandomElement(live)}, n \in {RandomElement(Names)}, f \in {Pick(AddFail)} :
+                            IF Len(HnAdd(objs[i], n, f).o.names) <= MaxNames THEN DoAdd(i, n, f) ELSE DoFind(i, n)
+      [] kd = "hn.find" -> \E i \in {RandomElement(live)}, n \in {RandomElement(Names)} : DoFind(i, n)
+      [] kd = "hn.check" -> \E i \in {RandomElement(live)}, n \in {RandomElement(Names)} : DoCheck(i, n)
+      [] kd = "hn.any" -> \E i \in {RandomElement(live)} : DoAny(i)
+      [] kd = "hn.del" -> \E i \in {RandomElement(live)} : DoDel(i)
+      [] kd = "hn.clone" -> \E i \in {RandomElement(live)}, j \in {RandomElement(dead)}, w \in {RandomElement(1..(2 * (3 + MaxNames)))} :
+                              DoClone(i, j, IF w > 3 + MaxNames THEN 0 ELSE w - 1)
 SimSpec == Init /\ [][SimNext]_vars
 
 Inv == (\A i \in Idx : HnInv(objs[i])) = TRUE
